@@ -248,6 +248,164 @@ async def _(mpc):
     return [str(await mpc.output(f + g)), str(await mpc.output(f * g))]
 
 
+# ---------------------------------------------------------------------------------------------------- OPEN findings
+# Reproducers of the OPEN entries of known_findings.json that were reported by the defect-hunting sub-agents: `expected` is what
+# the property promises; as long as the defect is there the case fails and the owning check prints KNOWN-FINDING for its key.
+def open_case(prop, key, name, cfg=(1, 0, False), numpy=False, expected=None, tol=0.0, max_steps=3_000_000):
+    def deco(f):
+        CASES.append((prop, name, 'open:' + key, cfg, numpy, f, expected, tol))
+        OPEN_STEPS[name] = max_steps
+        return f
+    return deco
+
+
+OPEN_STEPS = {}
+
+
+@open_case('C03', 'C03-np-pow-int-base-negative-exponent', '2 ** (secure fixed-point array with negative integral entries)', numpy=True,
+           expected=[False, [0.5, 4.0]])
+async def _(mpc):
+    secfxp = mpc.SecFxp(32, 16)
+    r = 2 ** secfxp.array(np.array([-1.0, 2.0]))
+    return [bool(r.integral), (await mpc.output(r)).tolist()]
+
+
+@open_case('C02', 'C02-double-precision-constants', 'SecFxp(128,64)(1000) / 3 within 16(1+|x|) units', expected=True)
+async def _(mpc):
+    from fractions import Fraction
+    secfxp = mpc.SecFxp(128, 64)
+    v = await mpc.output(secfxp(1000) / 3, raw=True)
+    return abs(int(v) - Fraction(1000 * 2 ** 64, 3)) <= 16 * 1001
+
+
+@open_case('C05', 'C05-double-precision-boundary', 'SecFlt(128): 2^100 + 1 differs from 2^100', expected=[0.0, 1.0])
+async def _(mpc):
+    secflt = mpc.SecFlt(128)
+    x, y = secflt(2 ** 100 + 1), secflt(2 ** 100)
+    return [float(await mpc.output(x == y)), float(await mpc.output(x > y))]
+
+
+@open_case('C33', 'C33-derangement-fixed-point-rejection', 'random_derangement of small non-integral fixed-point values terminates',
+           expected=True, max_steps=120_000)
+async def _(mpc):
+    import mpyc.random as mr
+    secfxp = mpc.SecFxp(32, 16)
+    x = [0.0, 0.001, 0.002]
+    d = [round(float(v), 3) for v in await mpc.output(mr.random_derangement(secfxp, x))]
+    return sorted(d) == x and all(a != b for a, b in zip(d, x))
+
+
+@open_case('C33', 'C33-empty-and-mixed-lists', 'shuffle / sample of empty and of mixed public/secret lists', expected=[[], [], 2])
+async def _(mpc):
+    import mpyc.random as mr
+    secint = mpc.SecInt(16)
+    e = []
+    mr.shuffle(secint, e)
+    return [e, mr.sample(secint, [], 0), len(await mpc.output(mr.sample(secint, [secint(1), 2, 3], 2)))]
+
+
+@open_case('C04', 'C04-signed-prime-field-to-bits', 'to_bits on a signed prime field', expected=[[1, 0, 1], 5])
+async def _(mpc):
+    S = mpc.SecFld(7, signed=True)
+    b = mpc.to_bits(S(5))
+    try:
+        return [_ints(await mpc.output(b)), int(await mpc.output(mpc.from_bits(b))) % 7]
+    finally:
+        mpc.SecFld(7)      # restore the (shared) signedness of GF(7)
+
+
+@open_case('C04', 'C04-signedness-shared-field-class', 'creating SecFld(p) does not change values of SecFld(p, signed=True)', expected=[-2, -2])
+async def _(mpc):
+    S1 = mpc.SecFld(263, signed=True)
+    a = S1(261)
+    before = int(await mpc.output(a))
+    mpc.SecFld(263)
+    return [before, int(await mpc.output(a))]
+
+
+@open_case('C06', 'C06-large-field-to-small-int', 'convert(SecFld(2^61-1)(5), SecInt(32)) with 3 parties', cfg=(3, 1, False), expected=[5, 5, 5])
+async def _(mpc):
+    S = mpc.SecFld(2 ** 61 - 1)
+    x = mpc.input(S(5), senders=0)
+    return [int(await mpc.output(mpc.convert(x, mpc.SecInt()))) for _ in range(3)]
+
+
+@open_case('C38', 'C38-length-bound-at-least-p', 'secure polynomial of length p over GF(5): floor division', numpy=True, expected=True)
+async def _(mpc):
+    from mpyc import gfpx, secpols
+    S = mpc.SecFld(5)
+    poly = gfpx.GFpX(5)
+    f = secpols.secpoly(np.array([1, 2, 0, 0, 3], dtype=object), sectype=S)
+    g = secpols.secpoly(np.array([2], dtype=object), sectype=S)
+    return (await mpc.output(f // g)) == poly([1, 2, 0, 0, 3]) // poly([2])
+
+
+@open_case('C38', 'C38-lifted-field', 'secure polynomial over a lifted prime field (SecFld(3), 3 parties)', cfg=(3, 1, False), numpy=True,
+           expected='2x+1')
+async def _(mpc):
+    from mpyc import gfpx, secpols
+    f = secpols.secpoly(gfpx.GFpX(3)([1, 2]), sectype=mpc.SecFld(3))
+    return str(await mpc.output(f))
+
+
+@open_case('C30', 'C30-find-fractional-f', "find(x, 1, f=lambda i: 2**-i) on secure fixed-point bits (the docstring's example)", expected=0.25)
+async def _(mpc):
+    secfxp = mpc.SecFxp(16, 8)
+    x = [secfxp(0), secfxp(0), secfxp(1), secfxp(0)]
+    return float(await mpc.output(mpc.find(x, 1, f=lambda i: 2 ** -i)))
+
+
+@open_case('C29', 'C29-rows-of-mixed-types', 'min of rows with entries of different secure types', expected=[1, 2.25])
+async def _(mpc):
+    secint, secfxp = mpc.SecInt(16), mpc.SecFxp(32, 16)
+    rows = [[secint(3), secfxp(-1.5)], [secint(1), secfxp(2.25)], [secint(2), secfxp(-0.5)]]
+    r = mpc.min(rows, key=lambda r_: r_[0])
+    return [int(await mpc.output(r[0])), float(await mpc.output(r[1]))]
+
+
+@open_case('C31', 'C31-remove-not-awaited', 'seclist.remove(v) followed by append, not awaited, 3 parties', cfg=(3, 1, False),
+           expected=[3, [1, 3, 4, 5]])
+async def _(mpc):
+    from mpyc.seclists import seclist
+    secint = mpc.SecInt(16)
+    s = seclist([1, 2, 3, 4], secint)
+    s.remove(2)
+    n = len(s)
+    s.append(5)
+    return [n, _ints(await mpc.output(list(s)))]
+
+
+@open_case('C31', 'C31-field-lists-not-found-marker', 'seclist over GF(2^8): count / contains / index of a present value', expected=[2, 1, 1])
+async def _(mpc):
+    from mpyc.seclists import seclist
+    fld = mpc.SecFld(2 ** 8)
+    s = seclist([10, 11, 12, 11], fld)
+    return _ints(await mpc.output([s.count(11), s.contains(11), s.find(11)]))
+
+
+@open_case('C31', 'C31-sort-key-not-stable', 'seclist.sort(key=a*a) keeps the order of ties like list.sort', expected=[1, -1, -2, 2])
+async def _(mpc):
+    from mpyc.seclists import seclist
+    s = seclist([-2, 2, 1, -1], mpc.SecInt(16))
+    s.sort(key=lambda a: a * a)
+    return _ints(await mpc.output(list(s)))
+
+
+@open_case('C37', 'C37-list-of-arrays-io', 'mpc.output of a list of two secure arrays', numpy=True, expected=2)
+async def _(mpc):
+    secint = mpc.SecInt(16)
+    a, b = secint.array(np.array([1, 2])), secint.array(np.array([3, 4]))
+    return len(await mpc.output([a, b]))
+
+
+@open_case('C37', 'C37-split-with-indices', 'np.split with split indices', numpy=True, expected=[[1, 3], [1, 3], [2, 3]])
+async def _(mpc):
+    secint = mpc.SecInt(16)
+    a = secint.array(np.arange(12).reshape(4, 3))
+    parts = np.split(a, np.array([1, 2]))
+    return [list((await mpc.output(p)).shape) for p in parts]
+
+
 # ---------------------------------------------------------------------------------------------------- driver
 def _close(a, b, tol):
     if isinstance(a, (list, tuple)) and isinstance(b, (list, tuple)):
@@ -264,7 +422,8 @@ def run_case(idx, seed=1):
     if needs_np and np is None:
         return None, 'skipped (NumPy not available)'
     try:
-        res = SimNet(m, t, no_prss=no_prss, seed=seed, sched=Scheduler(seed, 'random'), max_steps=3_000_000).run(prog)
+        res = SimNet(m, t, no_prss=no_prss, seed=seed, sched=Scheduler(seed, 'random'),
+                     max_steps=OPEN_STEPS.get(name, 3_000_000)).run(prog)
     except (Deadlock, PartyError) as exc:
         return False, f'run does not complete: {type(exc).__name__}: {str(exc)[:300]}'
     except Exception as exc:  # noqa: BLE001
@@ -286,6 +445,13 @@ def check(ctx, prop):
             ctx.count('regression-inputs-skipped')
             continue
         ctx.case(('regression', prop, c[1]), nontrivial=True)
+        if c[2].startswith('open:'):
+            if not ok:     # listed open finding reproduces (check.py prints KNOWN-FINDING for its key)
+                ctx.violation(f'{prop}: {c[1]}: {msg}', {'kind': 'regression', 'name': c[1], 'finding_key': c[2][5:],
+                                                         'seed': 1 + ctx.seed})
+            else:
+                ctx.note(f'open finding {c[2][5:]} no longer reproduces with its directed input ({c[1]})')
+            continue
         if not ok:
             ctx.violation(f'{prop}: regression input of repo fix {c[2]} fails again: {c[1]}: {msg}',
                           {'kind': 'regression', 'name': c[1], 'commit': c[2], 'seed': 1 + ctx.seed})
